@@ -12,6 +12,14 @@ pub mod option_chrono_naive_date_as_int {
             write!(formatter, "an integer that looks like a date")
         }
 
+        fn visit_unit<E: Error>(self) -> Result<Self::Value, E> {
+            Ok(None)
+        }
+
+        fn visit_none<E: Error>(self) -> Result<Self::Value, E> {
+            Ok(None)
+        }
+
         fn visit_u64<E: Error>(self, value: u64) -> Result<Self::Value, E> {
             if value == 0 {
                 Ok(None)
@@ -31,7 +39,8 @@ pub mod option_chrono_naive_date_as_int {
     where
         D: Deserializer<'de>,
     {
-        deserializer.deserialize_u64(NaiveDateVisitor)
+        // a nullable member may be sent as an explicit null
+        deserializer.deserialize_any(NaiveDateVisitor)
     }
 
     pub fn serialize<S>(value: &Option<chrono::NaiveDate>, serializer: S) -> Result<S::Ok, S::Error>
